@@ -90,6 +90,9 @@ def ops(group):
             o['rx-ann-p1-wd-p2-%s' % a] = ('rx', upd_v4(['p1'], a, ['p2']), [('in', 'ipv4', 'wd', 'p2', None), ('in', 'ipv4', 'ann', 'p1', a)])
         o['rx-ann-p1p2-a1'] = ('rx', upd_v4(['p1', 'p2'], 'a1'), [('in', 'ipv4', 'ann', 'p1', 'a1'), ('in', 'ipv4', 'ann', 'p2', 'a1')])
         o['rx-wd-p1p2'] = ('rx', upd_v4(wd=['p1', 'p2']), [('in', 'ipv4', 'wd', 'p1', None), ('in', 'ipv4', 'wd', 'p2', None)])
+        # many UPDATEs in one TCP read (a table transfer): 550 x (announce p1, withdraw p1), then announce p2 - one event
+        burst = (upd_v4(['p1'], 'a1') + upd_v4(wd=['p1'])) * 550 + upd_v4(['p2'], 'a2')
+        o['rx-burst-1101'] = ('rx', burst, [('in', 'ipv4', 'ann', 'p1', 'a1'), ('in', 'ipv4', 'wd', 'p1', None)] * 550 + [('in', 'ipv4', 'ann', 'p2', 'a2')])
         for enc in P3[1]:
             o['rx-ann-%s-a1' % enc] = ('rx', upd_v4([enc], 'a1'), [('in', 'ipv4', 'ann', 'p3', 'a1')])
         o['rx-wd-p3'] = ('rx', upd_v4(wd=['p3']), [('in', 'ipv4', 'wd', 'p3', None)])
